@@ -26,7 +26,7 @@ def run(chk, replay=None):
         if e["e"] == "Lane" and e["lane"] == "P" and e["poisoned"] > 0:
             chk.nontrivial((e["run"], e["k"]))
     chk.sample(rows[0]); chk.sample(rows[1])
-    ok, matched, res = chk.validate("Trace_C06", trace, need_actions=("LaneP", "LaneZ"))
+    ok, matched, res = chk.validate("Trace_C06", trace, need_actions=("Lane",))
     if not ok:
         bad = rows[matched] if matched < len(rows) else None
         prev = rows[matched - 1] if matched else None
